@@ -24,6 +24,9 @@
 import RtoscModel.Proofs.PathCollapse
 import RtoscModel.Proofs.PathApropos
 import RtoscModel.Proofs.PathSearch
+import RtoscModel.Proofs.PathHash
+import RtoscModel.Proofs.PathDir
+import RtoscModel.Path.Enum
 namespace Rtosc.Path
 open Rtosc
 
@@ -82,6 +85,53 @@ theorem apropos_of_walked (ps : List PortT) (hok : TreeOK ps) (a : Bytes) (ix : 
     apropos ps a = .port ix ∧ apropos ps (SLASH :: a) = .port ix :=
   apropos_of_walked_local ps a ix hw (unamb_of_treeOK ix ps a hok (walk_sound ps a ix hw))
 
+/-! ### Enumerated rows (`name#N`)
+
+  `apropos_of_walked` above is about trees of literal names (`TreeOK` contains `LitName`).
+  For trees that also have enumerated rows the statement is `apropos_of_walked_enum_statement`;
+  it is not proved for whole trees.  What is proved is the step of the lookup at one
+  enumerated row (`apropos_of_walked_enum_partial`): the `#` branch of `rtosc_match_path`
+  accepts exactly the indices below `N`, and hands the rest of the address to the
+  sub-table.  The model with its `#` branch is compared with the compiled code on generated
+  trees with enumerated rows, and the oracle checks every walked address of such trees. -/
+
+/-- the lookup clause for trees with literal and enumerated names (`walkE`, `TreeOKE`:
+    RtoscModel/Path/Enum.lean) — stated, not proved -/
+def apropos_of_walked_enum_statement : Prop :=
+  ∀ (ps : List PortT), TreeOKE ps → ∀ (a : Bytes) (ix : List Nat), (a, ix) ∈ walkE ps →
+    apropos ps a = .port ix ∧ apropos ps (SLASH :: a) = .port ix
+
+/-- **apropos_of_walked_enum_partial**: one enumerated row `pre#N post` (`dn` = the digits of
+    `N`, `dk` = the digits of an index `k`).  (1) As a sub-tree row `pre#N post/[:args]` it
+    matches the address `pre k post/rest` for `k < N` and leaves exactly `rest` for the
+    sub-table; (2) as a leaf row `pre#N post[:args]` it matches `pre k post` to its end for
+    `k < N`; (3) an index `k ≥ N` is not matched. -/
+theorem apropos_of_walked_enum_partial (pre dn post tail dk : Bytes)
+    (hpre : ∀ c ∈ pre, PlainChar c) (hpost : ∀ c ∈ post, PlainChar c) (ht : TailOK tail)
+    (hn : Digits dn) (hk : Digits dk) (hpd : isDigit (hd post) = false)
+    (hmax : atoi dn < 2147483648) (hval : atoi dk < 2147483648) :
+    (atoi dk < atoi dn → ∀ rest : Bytes,
+      matchPath (pre ++ 35 :: (dn ++ (post ++ SLASH :: tail))) (pre ++ (dk ++ (post ++ SLASH :: rest))) =
+        .ok tail rest) ∧
+    (atoi dk < atoi dn →
+      ∃ p, matchPath (pre ++ 35 :: (dn ++ (post ++ tail))) (pre ++ (dk ++ post)) = .ok p []) ∧
+    (atoi dn ≤ atoi dk →
+      matchPath (pre ++ 35 :: (dn ++ (post ++ tail))) (pre ++ (dk ++ post)) = .null) := by
+  have hpd' : isDigit (hd (post ++ [SLASH])) = false := by
+    cases post with
+    | nil => show isDigit SLASH = false; decide
+    | cons c _ => simpa using hpd
+  have hP : isDigit (hd (post ++ tail)) = false := by
+    cases post with
+    | nil =>
+      rcases ht with rfl | ht
+      · decide
+      · simp only [List.nil_append]; rw [ht]; decide
+    | cons c _ => simpa using hpd
+  exact ⟨fun hlt rest => matchPath_enum_dir pre dn post tail dk rest hpre hpost ht hn hk hpd' hmax hlt,
+    fun hlt => matchPath_enum_leaf pre dn post tail dk hpre hpost ht hn hk hpd hmax hlt,
+    fun hge => matchPath_enum_out_of_range pre dn (post ++ tail) dk post hpre hn hk hP hpd hmax hval hge⟩
+
 /-- `Ports::operator[]` returns the first row whose name is the key followed by `:` or by
     nothing (stated on the loop: the row found satisfies it, every earlier one does not). -/
 theorem index_spec (ps : List PortT) (key : Bytes) (hk : ∀ c ∈ key, c ≠ 0) :
@@ -123,20 +173,37 @@ theorem index_spec (ps : List PortT) (key : Bytes) (hk : ∀ c ∈ key, c ≠ 0)
 
 /-! ## Child search -/
 
+/-- **search_location_dir**: "the addressed port" of a child search.  The address of a
+    directory (the names, up to `:`, of the ports on the way, each ending in `/`; given with or
+    without the leading `/`) makes the search run over exactly the rows of that directory's
+    sub-table: `rows` in the theorems below is `p.children` for the port `p` with that index
+    path.  Hypotheses (`UnambDir`): no other row of a table on the way is a prefix of, or
+    prefixed by, the row taken, and the last directory name has its only `/` at its end
+    (`dir_multi_slash_counterexample`: the row `a/b/` is not found by the address `a/b/`). -/
+theorem search_location_dir (ps : List PortT) (ix : List Nat) (a : Bytes)
+    (h : dirAddrOf ps ix = some a) (hu : UnambDir ps ix) :
+    ∃ p, portAt ps ix = some p ∧ searchRows ps a = .ok p.children ∧
+      searchRows ps (SLASH :: a) = .ok p.children :=
+  searchRows_dir ps ix a h hu
+
 /-- **search_children**: with the option `unmodified` the search returns exactly the
     direct children of the addressed port whose names start with the prefix, in table
     order, each paired with its metadata bytes — the blob is exactly the bytes of the
     metadata block (`Pair.view` reads `len` bytes from the data pointer; `childrenSpec`
-    holds the whole block). -/
+    holds the whole block), and the length field of every blob is the number of those bytes
+    (no more than the block: the last conjunct; a length of block+1 — the defect repaired by
+    fixes/C18-pathsearch-metalen.patch — would satisfy the view equation alone). -/
 theorem search_children (S : Sorter) {root : List PortT} {str : Bytes} {needle : Option Bytes}
     {maxTypes maxArgs : Nat} {query : Bool} {rows : List PortT}
     (h : SearchHyp root str needle maxTypes maxArgs query rows) :
     ∃ out : List Pair,
       pathSearch S root str needle maxTypes maxArgs .unmodified query =
         .ok (queryTypes query ++ pairTypes out) (queryArgs query str (needle.getD []) ++ pairArgs out) ∧
-      out.map Pair.view = childrenSpec rows (needle.getD []) := by
-  obtain ⟨found, hcol, hview, hfit, _⟩ := h.found
-  exact ⟨found, pathSearch_unmodified S h.resolves hcol hfit, hview⟩
+      out.map Pair.view = childrenSpec rows (needle.getD []) ∧
+      ∀ e ∈ out, e.2.len = e.2.bytes.length := by
+  obtain ⟨found, hcol, hview, hfit, hfound⟩ := h.found
+  exact ⟨found, pathSearch_unmodified S h.resolves hcol hfit, hview,
+    fun e he => (bytes_length e.2 (hfound e he).2).symm⟩
 
 /-- **search_sorted**: with the option `sorted` the same children are returned in string
     (`strcmp`) order; which of several equal names comes first is up to `std::sort`, so
@@ -148,10 +215,12 @@ theorem search_sorted (S : Sorter) (hS : S.Correct) {root : List PortT} {str : B
       pathSearch S root str needle maxTypes maxArgs .sorted query =
         .ok (queryTypes query ++ pairTypes out) (queryArgs query str (needle.getD []) ++ pairArgs out) ∧
       (out.map Pair.view).Perm (childrenSpec rows (needle.getD [])) ∧
-      out.Pairwise (fun a b => strLt b.1 a.1 = false) := by
-  obtain ⟨found, hcol, hview, hfit, _⟩ := h.found
+      out.Pairwise (fun a b => strLt b.1 a.1 = false) ∧
+      ∀ e ∈ out, e.2.len = e.2.bytes.length := by
+  obtain ⟨found, hcol, hview, hfit, hfound⟩ := h.found
   obtain ⟨out, h1, h2, h3⟩ := pathSearch_sorted S hS h.resolves hcol hfit
-  exact ⟨out, h1, hview ▸ h2.map _, h3⟩
+  exact ⟨out, h1, hview ▸ h2.map _, h3,
+    fun e he => (bytes_length e.2 (hfound e (h2.mem_iff.mp he)).2).symm⟩
 
 /-- Why outputs are compared "as multisets within runs of equal names": two admissible
     results of the (unstable) sort of the same list carry the same sequence of names and,
@@ -172,7 +241,8 @@ theorem sort_result_unique {found l1 l2 : List Pair} (h1 : IsSortOf pairLt found
 /-- **search_unique_prefix**: with the option `sorted_and_unique_prefix` the result is the
     sorted list without every name that lies below a returned `name/` entry (`below`:
     some entry ending in `/` is a proper prefix of it); duplicates of a `name/` entry
-    stay. -/
+    stay.  As in `search_children`, every blob's length field is the number of metadata
+    bytes it is paired with. -/
 theorem search_unique_prefix (S : Sorter) (hS : S.Correct) {root : List PortT} {str : Bytes}
     {needle : Option Bytes} {maxTypes maxArgs : Nat} {query : Bool} {rows : List PortT}
     (h : SearchHyp root str needle maxTypes maxArgs query rows) (hne : ∀ p ∈ rows, p.name ≠ []) :
@@ -181,14 +251,16 @@ theorem search_unique_prefix (S : Sorter) (hS : S.Correct) {root : List PortT} {
         .ok (queryTypes query ++ pairTypes out) (queryArgs query str (needle.getD []) ++ pairArgs out) ∧
       (out.map Pair.view).Perm ((childrenSpec rows (needle.getD [])).filter fun e =>
         !below ((childrenSpec rows (needle.getD [])).map (·.1)) e.1) ∧
-      out.Pairwise (fun a b => strLt b.1 a.1 = false) := by
+      out.Pairwise (fun a b => strLt b.1 a.1 = false) ∧
+      ∀ e ∈ out, e.2.len = e.2.bytes.length := by
   obtain ⟨found, hcol, hview, hfit, hfound⟩ := h.found
   have hne' : ∀ e ∈ found, e.1 ≠ [] := by
     intro e he
     obtain ⟨⟨p, hp, hpe, _⟩, _⟩ := hfound e he
     rw [hpe]; exact hne p hp
   obtain ⟨out, h1, h2, h3⟩ := pathSearch_unique S hS h.resolves hcol hfit hne'
-  refine ⟨out, h1, ?_, h3⟩
+  refine ⟨out, h1, ?_, h3,
+    fun e he => (bytes_length e.2 (hfound e (List.mem_filter.mp (h2.mem_iff.mp he)).1).2).symm⟩
   have hnames : (childrenSpec rows (needle.getD [])).map (·.1) = found.map (·.1) := by
     rw [← hview]; simp [Pair.view]
   rw [hnames, ← hview, List.filter_map]
@@ -292,6 +364,46 @@ example : Unamb exTree2 [0, 1] := by
       subst hq; decide
     · exact absurd rfl hj
     · simp [exTree2, PortT.children] at hq
+
+/-- p#3/ → { x, y#2:i }, q — an enumerated sub-tree with an enumerated leaf -/
+def exTreeE : List PortT :=
+  [.mk [112, 35, 51, 47] none true [.mk [120] none false [], .mk [121, 35, 50, 58, 105] none false []],
+   .mk [113] none false []]
+
+example : walkE exTreeE =
+    [([112, 48, 47, 120], [0, 0]), ([112, 48, 47, 121, 48], [0, 1]), ([112, 48, 47, 121, 49], [0, 1]),
+     ([112, 49, 47, 120], [0, 0]), ([112, 49, 47, 121, 48], [0, 1]), ([112, 49, 47, 121, 49], [0, 1]),
+     ([112, 50, 47, 120], [0, 0]), ([112, 50, 47, 121, 48], [0, 1]), ([112, 50, 47, 121, 49], [0, 1]),
+     ([113], [1])] := by decide
+
+/-- every walked address of the example resolves to the port it was reported with; an index
+    behind the end does not resolve -/
+example : ∀ e ∈ walkE exTreeE, apropos exTreeE e.1 = .port e.2 ∧ apropos exTreeE (SLASH :: e.1) = .port e.2 := by
+  decide
+example : apropos exTreeE [112, 51, 47, 120] = .null := by decide
+
+/-- the hypotheses of `apropos_of_walked_enum_partial` for `p#12/` against `p11/…` -/
+example : Digits [49, 50] ∧ Digits [49, 49] ∧ atoi [49, 49] < atoi [49, 50] ∧ (∀ c ∈ [(112 : UInt8)], PlainChar c) := by
+  refine ⟨⟨by decide, by decide⟩, ⟨by decide, by decide⟩, by decide, ?_⟩
+  intro c hc
+  simp only [List.mem_cons, List.not_mem_nil, or_false] at hc
+  subst hc
+  refine ⟨?_, ?_, ?_, ?_, ?_⟩ <;> decide
+
+/-- the directory `a/` of `exTree2` is addressed by `a/` and `/a/` -/
+example : dirAddrOf exTree2 [0] = some [97, 47] := by decide
+example : UnambDir exTree2 [0] := by
+  refine ⟨exTree2[0], ⟨rfl, ?_, by decide, by decide, ?_⟩, [97], by decide, by decide⟩
+  · intro q hq
+    simp only [exTree2, List.mem_cons, List.not_mem_nil, or_false] at hq
+    rcases hq with rfl | rfl <;> (unfold LitName; decide)
+  · intro j q hq hj
+    rcases j with _ | _ | j
+    · exact absurd rfl hj
+    · simp only [exTree2, List.getElem?_cons_succ, List.getElem?_cons_zero, Option.some.injEq] at hq
+      subst hq; decide
+    · simp [exTree2] at hq
+example : apropos exTree2 [47, 97, 47] = .port [0] := by decide
 
 /-- a flat table with duplicates, a `name/` entry, names below it, and metadata blocks of
     different lengths -/
